@@ -25,7 +25,8 @@ from functools import lru_cache
 
 TOL = 1e-12
 LENGTHS = [0.5, 1.0, 2.0, 3.25]
-LETTERS = "abcdefghijklmnop"
+# tip names: one and several letters, some sharing letters (a name must never be read as a set of letters)
+LETTERS = ["a", "tb", "cc", "d", "e5", "f", "gx2", "h", "ab", "j", "k", "l", "m", "n", "o", "p"]
 
 
 # ================================================================================================ model / spec
